@@ -386,6 +386,12 @@ func Esolexa(p float64) Qsolexa {
 	} else {
 		Q -= 0.5
 	}
+	// Saturate before narrowing; 127 and -128 are the scores of p == 0 and NaN.
+	if Q > 127 {
+		Q = 127
+	} else if Q < -127 {
+		Q = -127
+	}
 	return Qsolexa(Q)
 }
 
